@@ -42,8 +42,12 @@ class Source:
         self.calls = 0
         self.last = b''
         self.flip = None
+        self.yields = False         # the random source is a system call: a switching point
 
     def _bytes(self, n):
+        if self.yields:
+            from vk import sched as vsched
+            vsched.vsleep(2.0 ** -11)   # other requests' threads run while this one waits
         self.calls += 1
         self.requested += n
         kind, val = self.mode
@@ -123,6 +127,8 @@ open_case = st.fixed_dictionaries({
                                 st.sampled_from(['accept', 'accept', 'false', 'raise', 'text']),
                                 st.booleans()),      # settle after this open?
                       min_size=2, max_size=9),
+    # threaded server: the thread waiting for the random source gives way to other requests
+    'slow_source': st.booleans(),
 })
 
 
@@ -133,6 +139,7 @@ def check_opens(case, ctx=None):
     import engineio.base_server as bs
     st_ = setup()
     rep = {'opens_case': {'impl': case['impl'], 'start': case['start'],
+                          'slow_source': bool(case.get('slow_source')),
                           'source': case['source'].hex(),
                           'opens': [list(o) for o in case['opens']]}}
     w = make_world(case['impl'], {})
@@ -140,6 +147,7 @@ def check_opens(case, ctx=None):
         src = st_['src']
         src.mode = ('const', case['source'])
         src.flip = None
+        src.yields = bool(case.get('slow_source')) and case['impl'] == 'thread'
         bs.secrets = st_['fake_secrets']
         w.server.sequence_number = case['start'] & 0xffffff
         for i, (kind, outcome, settle) in enumerate(case['opens']):
@@ -157,6 +165,9 @@ def check_opens(case, ctx=None):
             if settle:
                 w.settle()
         w.settle()
+        if src.yields:
+            w.advance(2.0 ** -8)
+            w.settle()
         ids = [e[2] for e in w.app_log.events if e[1] == 'connect']
         for x in ids:
             if not isinstance(x, str) or not FMT.match(x):
@@ -172,8 +183,10 @@ def check_opens(case, ctx=None):
             nref = sum(1 for o in case['opens'] if o[1] != 'accept')
             ctx.case(rep, nref > 0 and len(ids) >= 2,
                      ['issued-through-opens', 'refusals=%d' % min(nref, 3),
-                      'overlapping-opens' if not all(o[2] for o in case['opens']) else 'sequential'])
+                      'overlapping-opens' if not all(o[2] for o in case['opens']) else 'sequential']
+                     + (['random-source-yields'] if src.yields else []))
     finally:
+        st_['src'].yields = False
         w.teardown()
         bs.secrets = st_['fake_secrets']
 
@@ -351,6 +364,7 @@ def replay(case, ctx):
     if 'opens_case' in case:
         oc = case['opens_case']
         return check_opens({'impl': oc['impl'], 'start': oc['start'],
+                            'slow_source': oc.get('slow_source', False),
                             'source': bytes.fromhex(oc['source']),
                             'opens': [tuple(o) for o in oc['opens']]})
     if 'step_from' in case:
